@@ -323,6 +323,10 @@ def run_env_schedule(yardl, home, root, hist):
             time.sleep(0.02)
         return False
     version = 0
+    json_dropped = False
+
+    def manifest():
+        return ENV_MANIFEST.replace("json:\n  outputDir: ../out/json\n", "") if json_dropped else ENV_MANIFEST
     try:
         if not settle():
             res["problem"] = "the watcher never finished its first generation"
@@ -335,14 +339,20 @@ def run_env_schedule(yardl, home, root, hist):
             if k == "model_error":
                 open(os.path.join(mdir, "extra.yml"), "w").write(extra_text(version, False))
             elif k == "main_fetch_error":
-                open(os.path.join(mdir, "_package.yml"), "w").write(ENV_MANIFEST.replace("  - ../lib\n", "  - ../lib\n" + BAD_IMPORT))
+                open(os.path.join(mdir, "_package.yml"), "w").write(manifest().replace("  - ../lib\n", "  - ../lib\n" + BAD_IMPORT))
             elif k == "nested_fetch_error":
                 open(os.path.join(ldir, "_package.yml"), "w").write(ENV_LIB_MANIFEST + BAD_IMPORT)
             elif k == "nested_manifest_error":
                 open(os.path.join(ldir, "_package.yml"), "w").write("namespace: Lib\nimports: {this is: [not a list\n")
+            elif k == "drop_json":
+                # the package simply has one target less from now on; what the JSON output holds at this moment must stay
+                json_dropped = True
+                res["json_at_drop"] = snapshot(os.path.join(root, "out", "json"))
+                res["settled_before_drop"] = tok["settled"]
+                open(os.path.join(mdir, "_package.yml"), "w").write(manifest())
             elif k in ("repair", "save"):
                 open(os.path.join(ldir, "_package.yml"), "w").write(ENV_LIB_MANIFEST)
-                open(os.path.join(mdir, "_package.yml"), "w").write(ENV_MANIFEST)
+                open(os.path.join(mdir, "_package.yml"), "w").write(manifest())
                 open(os.path.join(mdir, "extra.yml"), "w").write(extra_text(version))
         ok = settle(timeout=25, quiet=1.2)
         res["alive"] = proc.poll() is None
@@ -350,6 +360,7 @@ def run_env_schedule(yardl, home, root, hist):
             res["problem"] = "the watcher did not settle within 25 s"
         res["out"] = snapshot(os.path.join(root, "out"))
         res["version"] = version
+        res["json_dropped"] = json_dropped
     finally:
         if proc.poll() is None:
             proc.send_signal(signal.SIGTERM)
@@ -511,6 +522,10 @@ def main():
     c.add_tlc(re2)
     if not re2.violated_names():
         raise Inconclusive("vacuity guard: MCWatchEnvOnSuccess.cfg is expected to violate AtHomeWhenIdle / Converges")
+    re3 = tlc("WatchEnv", cfg="MCWatchEnvAccumulated.cfg", spec_dirs=[wdir], timeout=900)
+    c.add_tlc(re3)
+    if "UnconfiguredUntouched" not in re3.violated_names():
+        raise Inconclusive("vacuity guard: MCWatchEnvAccumulated.cfg is expected to violate UnconfiguredUntouched")
     envs = {json.dumps(x["hist"], sort_keys=True): x["hist"] for x in tlc_cases(re1.out)}
     envs = [envs[k] for k in sorted(envs)]
     c.cov["env_schedules_from_tlc"] = len(envs)
@@ -525,7 +540,8 @@ def main():
             if k not in seen_k:
                 seen_k.add(k)
                 first.append(h)
-        envs = first[:14]
+        drops = [h for h in envs if any(t["kind"] == "drop_json" and t["settled"] for t in h) and h[-1]["kind"] == "save"][:4]
+        envs = first[:12] + [h for h in drops if h not in first[:12]]
 
     def envwork(arg):
         i, h = arg
@@ -551,6 +567,16 @@ def main():
         if res.get("ref_rc") != 0:
             raise Inconclusive("the final contents of env schedule %s are not a valid package for one-shot generate" % shape)
         exp, got = res["ref"], res["out"]
+        if res.get("json_dropped"):
+            # the reference run has no JSON target; the watcher's JSON output is what was there when the target was dropped.  Where the
+            # drop came while a regeneration may still have been writing, only "not newer than the contents at the drop" could be asked;
+            # the byte comparison is made for the settled drops
+            now = {k[len("json/"):]: v for k, v in got.items() if k.startswith("json/")}
+            got = {k: v for k, v in got.items() if not k.startswith("json/")}
+            if res.get("settled_before_drop") and now != res.get("json_at_drop"):
+                c.violation("C20:env:unconfigured-target-written:%s" % shape, "after the edits %s the JSON output changed although the manifest had stopped "
+                            "configuring the JSON target (a one-shot generate of the final contents does not touch it)" % shape, replay)
+                continue
         diff = sorted(k for k in set(exp) | set(got) if exp.get(k) != got.get(k))
         if diff:
             replay["differing_files"] = diff[:20]
